@@ -113,6 +113,7 @@ theorem c11_step (hc : CfgOK c) (hw : WFW c cu w) (op : Op) (ha : ArgsOK c w op)
   | setS d => exact c11_setS hc hw d
   | sprintf a => exact c11_sprintf hc hw a
   | sprintf2 a v => exact c11_sprintf2 hc hw a v
+  | sprintfW a wa v b => exact c11_sprintfW hc hw a wa v b
   | str => exact c11_str hw
   | stream => exact c11_stream hw
   | substr p n => exact c11_substr hw p n hd
